@@ -24,9 +24,9 @@ theorem fact_translated_all :
       "cosmoslane_CLVestingMessagesAuthorizationDecorator_AnteHandle",
       "duallane_DLValidateBasicDecorator_AnteHandle", "keeper_msgServer_SubmitProofExternalOwnedAccount",
       "duallane_DLSigVerificationDecorator_AnteHandle", "duallane_DLIncrementSequenceDecorator_AnteHandle",
-      "duallane_DLDeductFeeDecorator_AnteHandle", "indexer_TxIndexKey", "indexer_parseBlockNumberFromKey",
-      "evmlane_ELValidateBasicEoaDecorator_AnteHandle", "evmlane_ELSetupExecutionDecorator_AnteHandle",
-      "evmlane_ELEmitEventDecorator_AnteHandle"] := by
+      "duallane_DLDeductFeeDecorator_AnteHandle", "keeper_Keeper_IsEmptyAccount", "indexer_TxIndexKey",
+      "indexer_parseBlockNumberFromKey", "evmlane_ELValidateBasicEoaDecorator_AnteHandle",
+      "evmlane_ELSetupExecutionDecorator_AnteHandle", "evmlane_ELEmitEventDecorator_AnteHandle"] := by
   decide +kernel
 
 theorem fact_uninterpreted :
@@ -37,6 +37,7 @@ theorem fact_uninterpreted :
       "duallane_DLValidateBasicDecorator_AnteHandle: object new_LatestSignerForChainID_01415ad1 = ethtypes.LatestSignerForChainID(vbd.ek.GetEip155ChainId(ctx).BigInt())",
       "keeper_msgServer_SubmitProofExternalOwnedAccount: object lit_vauthtypes_ProofExternalOwnedAccount_5084c998 = vauthtypes.ProofExternalOwnedAccount{Account: msg.Account, Hash: \"0x\"+hex.EncodeToString(crypto.Keccak256(*ast.ArrayType(vauthtypes.MessageToSign))), Signature: msg.Signature}",
       "duallane_DLSigVerificationDecorator_AnteHandle: object new_LatestSignerForChainID_ced01bc1 = ethtypes.LatestSignerForChainID(chainID)",
+      "keeper_Keeper_IsEmptyAccount: call evmtypes.IsEmptyCodeHash(codeHash)",
       "evmlane_ELValidateBasicEoaDecorator_AnteHandle: object new_BytesToAddress_712e99b6 = common.BytesToAddress(from)",
       "evmlane_ELValidateBasicEoaDecorator_AnteHandle: call evmtypes.IsEmptyCodeHash(codeHash)"] := by
   decide +kernel
